@@ -98,7 +98,9 @@ def _convert_pauli_label_to_sparse(
             " of the pauli operator."
         )
         for bit, pauli in zip(*single_pauli_label.index_and_pauli_id_list):
-            single_pauli_list[n_qubits - bit - 1] = _pauli_map[SinglePauli(pauli)]
+            # copy: a one-qubit label must not hand out the module's own table entry
+            mat = _pauli_map[SinglePauli(pauli)].copy()
+            single_pauli_list[n_qubits - bit - 1] = mat
 
     return reduce(lambda o1, o2: sparse.kron(o1, o2, format), single_pauli_list)
 
